@@ -101,6 +101,23 @@ pub fn run(ctx: &Ctx, reg: &Registry) -> i32 {
                         check(&mut acc, reg, s, &body, members, ci % 3, "one-field-under-one-candidate");
                     }
                 }
+                // (2') repeated members (second value source): a field's key twice, with two different sentinels, among
+                // the other fields; the model reads repeated keys in enumeration order (the later one wins)
+                for (fi, f) in fields.iter().enumerate() {
+                    if f.skip {
+                        continue;
+                    }
+                    let mut members: Vec<(String, Ov)> = fields.iter().enumerate().filter(|(_, g)| !g.skip).map(|(fj, _)| cands[fj][0].clone()).collect();
+                    let second = (f.key.clone(), valid_value(&reg.defs, &f.ty, ctx.seed ^ h, fi as u64, 99));
+                    let pos = (fi * 7) % (members.len() + 1);
+                    members.insert(pos, second);
+                    let case = Case { payload: assemble(&body, members, fi % 3), faults: vec!["repeated-key"] };
+                    let r = model_case(&mut acc, reg, "C07", s, &case, Source::Ov, &A);
+                    if let monitor::Outcome::Ok(p) = &r.outcome {
+                        acc.nontrivial(&(s.name(), &body.label, p.show()));
+                    }
+                    acc.count("repeated_key_payloads");
+                }
                 // (3) random subsets of candidates
                 for i in 0..n_rand {
                     let mut members = vec![];
